@@ -192,8 +192,8 @@ Proof.
   destruct n; cbn [norm]; [eauto|]. destruct (flat_fields U c); eauto.
 Qed.
 
-Lemma absent_args_id U t v : v <> VNone -> absent_args U t v = inr v.
-Proof. destruct v; [congruence| | |]; reflexivity. Qed.
+Lemma absent_args_id w U t v : v <> VNone -> absent_args w U t v = inr v.
+Proof. destruct w; destruct v; try congruence; reflexivity. Qed.
 
 Lemma norm_not_none U n t v : nonelike v = false -> norm U n t v <> VNone.
 Proof.
@@ -356,14 +356,14 @@ Section Fidelity.
       rewrite (find_method_nth (s_tns Sv) (s_methods Sv) 0 i m Hnames Hnth). cbn [Nat.add].
       rewrite Hhd.
       unfold C, U, cfgV in Hd. rewrite Hd.
-      rewrite (absent_args_id _ _ _ (norm_not_none (synth U0 Sv) fuel _ _ Hnl)).
+      rewrite (absent_args_id _ _ _ _ (norm_not_none (synth U0 Sv) fuel _ _ Hnl)).
       rewrite <- seen_header_raw.
       fold U. rewrite (args_of i m args).
       rewrite Hf. rewrite Hser. reflexivity.
     - (* ---- the client *)
       unfold client_response. fold (open_doc P (wire (envelope P hsout rbody))). rewrite open_envelope.
       rewrite Hhd2. cbn [bind]. unfold C, U, cfgV in Hd2. rewrite Hd2. cbn [bind].
-      rewrite (absent_args_id _ _ _ (norm_not_none (synth U0 Sv) fuel _ _ Hnlr)). cbn [bind].
+      rewrite (absent_args_id _ _ _ _ (norm_not_none (synth U0 Sv) fuel _ _ Hnlr)). cbn [bind].
       rewrite <- seen_header_raw.
       unfold seen_ret. unfold ret_value in Erv.
       destruct (m_style m) eqn:Es.
